@@ -270,6 +270,32 @@ def r_oprec(E):
                     continue
                 vsym, vl, vr = _top_op(out.value)
                 if vsym is None:
+                    # the operation done on the bare arrays of the two series, re-wrapped in a frame:
+                    # pd.DataFrame({"value": PintArray(<a> + <b>, dtype=…)}, index=…) with <a>, <b> traced back to the
+                    # series they were taken from
+                    inner = next((c.args[0] for c in ast.walk(out.value) if isinstance(c, ast.Call)
+                                  and norm(c.func) == "pint_pandas.PintArray" and c.args), None)
+                    if isinstance(inner, ast.BinOp) and type(inner.op) in AST_OP and not isinstance(out.fn, str):
+                        from .units import MagnitudeFlow, default_sink_of, module_dict_tables
+                        from ..astutil import fully_expanded as _fx_o
+                        host = out.fn
+                        mf = MagnitudeFlow(host, default_sink_of, None, pm.helper_finder(out.cls))
+                        hit = [parts for node, parts in mf.elementwise if node is inner]
+                        if not hit:
+                            # the frame may be bound to a local first: look for the operation among the expanded value
+                            hit = [parts for node, parts in mf.elementwise if isinstance(node, ast.BinOp)
+                                   and norm(node) == norm(inner)]
+                        sides = []
+                        for parts in hit[:1]:
+                            for p_ in parts:
+                                rs = set()
+                                for i, _, _ in p_:
+                                    rs |= mf.roots.get(i, {None})
+                                sides.append(rs)
+                        if len(sides) == 2 and all(len(x) == 1 and None not in x for x in sides):
+                            vsym = AST_OP[type(inner.op)]
+                            vl, vr = (ast.Name(id=next(iter(x)), ctx=ast.Load()) for x in sides)
+                if vsym is None:
                     # value is one operand's value: only right when the other operand is neutral (EMPTY with + or -)
                     if not (k == "EMPTY" and out.op in "+-" and osym == out.op):
                         res.findings.append(Finding(
@@ -737,83 +763,50 @@ def r_raw2(E):
     pm = E.pm
     res = RuleResult("R-RAW2", "an operation combining raw arrays taken from two series (np.maximum / np.minimum) "
                                "requires both operands aligned on one index and expressed in one unit")
+    from .units import MagnitudeFlow, default_sink_of, module_dict_tables
+    from ..astutil import callee_texts
     for mod, (rel, tree, src) in sorted(pm.modules.items()):
-        from ..astutil import callee_texts
-        for call in ast.walk(tree):
-            if not (isinstance(call, ast.Call) and len(call.args) == 2):
+        tables = module_dict_tables(tree)
+        for fn in [f for f in ast.walk(tree) if isinstance(f, ast.FunctionDef)]:
+            if not any(default_sink_of(n) is not None for n in ast.walk(fn)):
                 continue
-            fn = call
-            while fn is not None and not isinstance(fn, ast.FunctionDef):
-                fn = getattr(fn, "_parent", None)
-            if fn is None:
-                continue
-            cts = callee_texts(call, fn)
-            if not cts or not cts <= {"np.maximum", "np.minimum"}:
-                continue
+            cls = getattr(fn, "_parent", None)
+            mf = MagnitudeFlow(fn, default_sink_of, tables,
+                               pm.helper_finder(cls.name) if isinstance(cls, ast.ClassDef) else None)
             q = fn.name
-            res.instances += 1
-            # reaching definitions per top-level branch of the function (if/elif chain assigning both operands)
-            names = [a.id if isinstance(a, ast.Name) else None for a in call.args]
-            if None in names:
-                res.findings.append(Finding("R-RAW2", f"{rel}:{q} :: {norm(call)[:100]}",
-                                            f"{q}: operands of {norm(call.func)} are not simple locals", rel, call.lineno, q))
-                continue
-            defs = {nm: [] for nm in names}
-            for n in ast.walk(fn):
-                if isinstance(n, ast.Assign) and len(n.targets) == 1 and isinstance(n.targets[0], ast.Name) \
-                        and n.targets[0].id in defs and n.lineno < call.lineno:
-                    br = n
-                    while getattr(br, "_parent", None) is not fn and getattr(br, "_parent", None) is not None \
-                            and not isinstance(getattr(br, "_parent", None), ast.If):
-                        br = br._parent
-                    defs[n.targets[0].id].append((n, getattr(n, "_parent", None)))
-            # group definitions by enclosing branch (same parent `If` body list)
-            groups = {}
-            for nm, ds in defs.items():
-                for n, parent in ds:
-                    gid = id(parent) if isinstance(parent, ast.If) else 0
-                    body_id = None
-                    if isinstance(parent, ast.If):
-                        body_id = "body" if n in parent.body else "orelse"
-                    groups.setdefault((gid, body_id), {})[nm] = n
-            common = groups.pop((0, None), {})
-            checked = 0
-            for gk, g in (groups.items() or [((0, None), {})]):
-                d = dict(common)
-                d.update(g)
-                if set(d) != set(names):
-                    continue
-                checked += 1
-                from ..astutil import fully_expanded
-                texts = {nm: norm(fully_expanded(d[nm].value, fn)) for nm in names}
-                aligned = False
-                reidx = []
-                for nm in names:
-                    cs = [x for x in ast.walk(fully_expanded(d[nm].value, fn)) if isinstance(x, ast.Call) and isinstance(x.func, ast.Attribute)
-                          and x.func.attr in ("reindex", "align") and x.args]
-                    reidx.append(norm(cs[0].args[0]) if cs else None)
-                if reidx[0] is not None and reidx[0] == reidx[1]:
-                    aligned = True
-                const_side = [nm for nm in names if "np.full(len(" in texts[nm] or "np.zeros(len(" in texts[nm]]
-                if const_side:
-                    aligned = True     # a constant array sized on the other operand
-                unit_ok = bool(const_side) or any(".to(self.unit)" in texts[nm] for nm in names)
-                key = f"{rel}:{q} :: {norm(call)[:60]} with {texts[names[0]][:60]} | {texts[names[1]][:60]}"
-                if not aligned:
+            seen_calls = {id(n) for n, _ in mf.elementwise}
+            bad_idx = {id(n): ix for n, ix in mf.misaligned}
+            bad_unit = {id(n): us for n, us in mf.mixed_units}
+            for node, parts in mf.elementwise:
+                res.instances += 1
+                what = norm(node.func) if isinstance(node, ast.Call) else type(getattr(node, "op", None)).__name__
+                key = f"{rel}:{q} :: {norm(node)[:60]}"
+                if id(node) in bad_idx:
                     res.findings.append(Finding(
                         "R-RAW2", key + " unaligned",
-                        f"{q}: {norm(call.func)} combines the raw arrays of two series by position; nothing aligns "
-                        f"their indexes (series over different time windows are paired hour i with hour i, or "
-                        f"numpy raises on unequal lengths)", rel, call.lineno, q))
-                elif not unit_ok:
+                        f"{q}: {what} combines the raw arrays of two series by position, but they are not on one index "
+                        f"({' / '.join(map(str, bad_idx[id(node)]))[:120]}; only `<index>.equals(<index>)` establishes that two "
+                        f"indexes are the same hours): series over different time windows are paired hour i with hour i, "
+                        f"or numpy raises on unequal lengths", rel, node.lineno, q))
+                elif id(node) in bad_unit:
                     res.findings.append(Finding(
                         "R-RAW2", key + " unit",
-                        f"{q}: {norm(call.func)} compares bare magnitudes of two series without converting the second "
-                        f"to the unit of the first", rel, call.lineno, q))
+                        f"{q}: {what} compares bare magnitudes of two series that are not expressed in one unit "
+                        f"({' / '.join(map(str, bad_unit[id(node)]))}): the second is not converted to the unit of the first",
+                        rel, node.lineno, q))
                 elif len(res.samples) < 4:
-                    res.samples.append({"function": q, "operands": texts, "verdict": "aligned, one unit"})
-            if not checked:
-                res.undecided.append(f"{q}: could not pair the definitions of {names}")
+                    res.samples.append({"function": q, "operation": norm(node)[:80], "verdict": "aligned, one unit"})
+            for node in mf.untraced:
+                res.instances += 1
+                res.undecided.append(f"{q}: an operand of `{norm(node)[:60]}` is not traced back to a series")
+            # an element-wise max / min that the flow did not meet at all
+            for call in ast.walk(fn):
+                if isinstance(call, ast.Call) and len(call.args) == 2 and id(call) not in seen_calls \
+                        and call not in mf.untraced:
+                    cts = callee_texts(call, fn)
+                    if cts and cts <= {"np.maximum", "np.minimum"}:
+                        res.instances += 1
+                        res.undecided.append(f"{q}: the operands of `{norm(call)[:60]}` are not traced back to two series")
     # positional arithmetic between the raw arrays of two different series (x.value[...].values + y.value[...].values)
     def array_root(e):
         """name of the explainable whose frame's raw array this expression is, or None"""
